@@ -811,6 +811,13 @@ class DynamicBayesianNetwork(DAG):
             )
 
         bn = BayesianNetwork(edges)
+        # variables without any edge belong to the constant network as well
+        bn.add_nodes_from(
+            [
+                str(node[0]) + "_" + str(node[1] + t_slice)
+                for node in super(DynamicBayesianNetwork, self).nodes()
+            ]
+        )
         bn.add_cpds(*new_cpds)
         return bn
 
